@@ -15,7 +15,9 @@ Two case kinds.
       After the construction and after every operation a *snapshot* of all reads is taken:
       list(c), len(c), c[i] for i in [-(n+2), n+1], c.index(x) and `x in c` for every probe member,
       and the triple footprint (independent walker: well-formed chain, no orphaned cells,
-      non-list triples untouched).
+      non-list triples untouched); then (round g) `list(g.items(head))` called directly and the text of
+      `c.n3()`, which must be "( " + the members' own n3() joined by blanks + " )" and must read back as the
+      list through rdflib's Turtle parser.
       Oracle (independent of Lean): a real Python list subjected to the same operations.
 
   {"kind": "broken", "head": …, "triples": [[s,p,o]…], "reads": [["len"]|["iter"]|["get",i]|["index",x]|["contains",x]]}
@@ -26,6 +28,7 @@ Terms are small integers: 0 = rdf:first, 1 = rdf:rest, 2 = rdf:nil, 5/6 other pr
 subject, 10…19 members (falsy literals and look-alikes included), 100… cells (100 = head).
 Blank nodes minted by rdflib never cross the protocol (footprints are compared by shape).
 """
+import re
 import signal
 import warnings
 
@@ -248,6 +251,7 @@ def _gen_broken(rng, tier):
     absent = [m for m in MEMBERS if m not in voc][0]
     reads = [["len"], ["iter"]] + [["get", i] for i in range(-(n + 2), n + 3)]
     reads += [["index", x] for x in voc + [absent]] + [["contains", x] for x in voc + [absent]]
+    reads.append(["ext"])
     rng.shuffle(reads)
     gk = "mem" if shape in ("two-rests", "two-firsts") else rng.choice(["mem", "mem", "simple", "ds"])
     return {"kind": "broken", "head": rng.choice(["b", "u"]), "g": gk, "shape": shape, "triples": dedup,
@@ -370,6 +374,60 @@ def _snapshot(c, g, head, T, rev, l, probe, viol, where, extra0):
     return " ".join(parts)
 
 
+_S, _P = URIRef("http://e/s"), URIRef("http://e/p")
+
+
+def _read_n3_list(txt):
+    """the reader: rdflib's Turtle parser on `<s> <p> ( … ) .`, then plain triple lookups along the parsed list"""
+    pg = Graph()
+    pg.parse(data=f"<http://e/s> <http://e/p> {txt} .", format="turtle")
+    cur, vals = next(pg.objects(_S, _P)), []
+    for _ in range(10000):
+        if cur == RDF.nil:
+            return vals
+        vals.append(next(pg.objects(cur, RDF.first)))
+        cur = next(pg.objects(cur, RDF.rest))
+    raise ValueError("parsed list does not end")
+
+
+def _same_terms(got, want):
+    """equal up to a consistent renaming of blank nodes (the parser relabels them)"""
+    if len(got) != len(want):
+        return False
+    m = {}
+    for a, b in zip(got, want):
+        if isinstance(b, BNode):
+            if not isinstance(a, BNode) or m.setdefault(b, a) != a:
+                return False
+        elif a != b or type(a) is not type(b) or (isinstance(b, Literal) and (a.datatype, a.language) != (b.datatype, b.language)):
+            return False
+    return len(set(m.values())) == len(m)
+
+
+def _ext(c, g, head, T, rev, l, viol, where, seen, stats):
+    """round g: Graph.items called directly, and Collection.n3()"""
+    k, v = _call(lambda: list(g.items(head)))
+    it = _show(k, v, rev)
+    if k != "ok" or [rev.get(x, 999) for x in v] != l:
+        viol.append(f"gitems: {where}: list(g.items(head)) = {it} but the list is {l}")
+    k, txt = _call(lambda: c.n3())
+    if k != "ok":
+        viol.append(f"n3-text: {where}: c.n3() raised {k}")
+        return f"IT={it} N3={k}"
+    want = "( %s )" % " ".join(T[x].n3() for x in l)
+    if txt != want:
+        viol.append(f"n3-text: {where}: c.n3() = {txt!r} but the list {l} is written {want!r}")
+    if txt not in seen:
+        rk, vals = _call(lambda: _read_n3_list(txt))
+        seen[txt] = rk == "ok" and _same_terms(vals, [T[x] for x in l])
+        stats["n3_read_back"] = stats.get("n3_read_back", 0) + 1
+        stats["n3_len_%s" % (len(l) if len(l) < 4 else "4+")] = 1
+        if not seen[txt]:
+            viol.append(f"n3-reader: {where}: {txt!r} read back by the Turtle parser gives "
+                        f"{rk if rk != 'ok' else [x.n3() for x in vals]}, the list is {[T[x].n3() for x in l]}")
+    return f"IT={it} N3={txt}"
+
+
 def _run_hist(case):
     T = _terms(case["head"])
     rev = {v: k for k, v in T.items()}
@@ -395,11 +453,12 @@ def _run_hist(case):
         obs.append("ok")
     l = list(items)
     obs.append(_snapshot(c, g, head, T, rev, l, case["probe"], viol, "at start", extra0))
-    mutated = False
+    mutated, seen = False, {}
     stats = {"hist": 1, "start_len_%d" % len(items): 1, "mode_" + case["init"]["mode"]: 1,
              "graph_" + case.get("g", "mem"): 1}
     if case["init"]["mode"] == "ctor":
         stats["init_shape_" + case["init"].get("shape", "list")] = 1
+    obs.append(_ext(c, g, head, T, rev, l, viol, "at start", seen, stats))
     for j, op in enumerate(case["ops"]):
         kind = op[0]
         n = len(l)
@@ -464,6 +523,7 @@ def _run_hist(case):
         if k == "ok" and n > 0 and kind != "clear":
             mutated = True
         obs.append(_snapshot(c, g, head, T, rev, l, case["probe"], viol, f"after op {j} {op}", extra0))
+        obs.append(_ext(c, g, head, T, rev, l, viol, f"after op {j} {op}", seen, stats))
     if not _decoy_ok(ds):
         viol.append("frame: the same head's list in another graph of the dataset was touched")
     if any(x in FALSY for x in items) or any(x in FALSY for op in case["ops"] for x in
@@ -506,6 +566,14 @@ def _run_broken(case):
             k, v = _call(lambda: c.index(T[r[1]]))
         elif r[0] == "contains":
             k, v = _call(lambda: T[r[1]] in c)
+        elif r[0] == "ext":
+            k, v = _call(lambda: list(g.items(T[HEAD])))
+            k2, txt = _call(lambda: c.n3())
+            obs.append(f"IT={_show(k, v, rev)} N3={txt if k2 == 'ok' else k2}")
+            raised = raised or k != "ok" or k2 != "ok"
+            if cyclic and (k == "ok" or k2 == "ok"):
+                viol.append(f"cyclic-no-raise: g.items / c.n3() on a cyclic chain returned ({k}, {k2}) instead of raising")
+            continue
         else:
             raise ValueError(r)
         obs.append(_show(k, v, rev))
@@ -562,6 +630,7 @@ def model_lines(case):
         lines.append("nop")
     l = list(items)
     lines.append(_snapline(len(l), case["probe"]))
+    lines.append("ext")
     for op in case["ops"]:
         n = len(l)
         if op[0] == "append":
@@ -585,6 +654,7 @@ def model_lines(case):
         elif op[0] == "clear":
             l.clear(); lines.append("clear")
         lines.append(_snapline(len(l), case["probe"]))
+        lines.append("ext")
     return lines
 
 
@@ -593,11 +663,24 @@ def _ctor_line(xs, shape):
     return ("iadd" if shape in ONE_SHOT else "ctor") + "".join(f" {x}" for x in xs)
 
 
+def _n3_terms(case, out):
+    """the model writes member k as `<k>` in the text of n3(): put the member's own n3() there"""
+    T = _terms(case["head"])
+    sub = lambda m: T[int(m.group(1))].n3() if int(m.group(1)) in T else m.group(0)
+    res = []
+    for line in out:
+        if line.startswith("IT=") and " N3=" in line:
+            a, b = line.split(" N3=", 1)
+            line = a + " N3=" + re.sub(r"<(\d+)>", sub, b)
+        res.append(line)
+    return res
+
+
 def select_model_obs(case, out):
     if case["kind"] == "broken":
-        return out[1 + len(case["triples"]):]
+        return _n3_terms(case, out[1 + len(case["triples"]):])
     n0 = 1 + len(case["extra"]) + (0 if case["init"]["mode"] == "ctor" else 2 * len(case["init"]["items"]))
-    return out[n0:]
+    return _n3_terms(case, out[n0:])
 
 
 # ------------------------------------------------------------------ shrinking / findings
